@@ -58,11 +58,12 @@ def clause_a(facts, rep):
                         if inner.get('k') == 'sub':
                             k = cval(inner['idx'])
                     if off is None or k is None:
-                        raise AnalysisBroken('C05.a: hex table subscript %s not of the form offset + src[k]' % show(e))
+                        pairs = None       # another way of reading the table: the function is decided by evaluation below
+                        break
                     pairs.append((off, k))
-            rep.require(len(pairs) == 4 and sorted(k for _, k in pairs) == [0, 1, 2, 3], 'C05.a: expected four table lookups, one per hex digit: %s' % pairs)
-            ors = [e for _, _, _, e in f.walk() if e.get('k') == 'bin' and e['op'] == '|']
-            rep.check(len(ors) >= 3, 'E5.hex-table', f.qn, 'the four lookups are OR-ed', f.loc, '', facts.config)
+            pairing = clause_hex_value(facts, rep, f)
+            if not pairs or len(pairs) != 4 or sorted(k for _, k in pairs) != [0, 1, 2, 3]:
+                return pairing
             bad = []
             for off, k in pairs:
                 shift = 4 * (3 - k)
@@ -77,9 +78,54 @@ def clause_a(facts, rep):
             rep.check(not bad, 'E5.hex-table', s['qn'], 'digit_to_val32[off + b] == hex(b) << 4*(3-k) or 0xFFFFFFFF for the four (off, k) = %s, all 256 b' % sorted(pairs), locline(s['loc']),
                       'first mismatches: %s' % bad[:3], facts.config)
             rep.extra['table_rows_checked'] = rep.extra.get('table_rows_checked', 0) + 1024
-            vals = set(tab)
-            pairing = all(v == 0xFFFFFFFF or v <= 0xF000 for v in vals) and not bad
+            pairing = pairing and not bad
     return pairing
+
+
+def clause_hex_value(facts, rep, f):
+    """hex_to_u32_nocheck evaluated (sv/minterp.py, the table read from its initialiser): for four hex digits the result
+    is their 16-bit value; if ANY of the four bytes is not a hex digit the result has a bit above bit 15 set - that is
+    what lets the callers reject the escape.  Every byte value in every position against three contexts, and all
+    four-byte words over a 12-byte alphabet of digits, letters and near-misses."""
+    from ..minterp import Interp, Unsupported, UndefinedBehaviour
+    import itertools
+    base = 0x1000
+    bad = None
+    n = 0
+
+    def run(word):
+        it = Interp(f, facts)
+        it.memory = {base + i: b for i, b in enumerate(word)}
+        return it.run({f.params[0]['id']: base}, {})[0]
+    try:
+        words = set()
+        for ctx in (b'0000', b'1f9A', b'FFFF'):
+            for pos in range(4):
+                for b in range(256):
+                    w = bytearray(ctx)
+                    w[pos] = b
+                    words.add(bytes(w))
+        alpha = b'019afAFGg /:'
+        for w in itertools.product(alpha, repeat=4):
+            words.add(bytes(w))
+        for w in sorted(words):
+            r = run(w)
+            n += 1
+            hv = [hexval(b) for b in w]
+            if all(h is not None for h in hv):
+                want = (hv[0] << 12) | (hv[1] << 8) | (hv[2] << 4) | hv[3]
+                if r != want:
+                    bad = 'digits %r give 0x%x, expected 0x%x' % (w.decode('latin-1'), r, want)
+            elif r <= 0xFFFF:
+                bad = '%r is not four hex digits but the result 0x%x looks like a code unit (no bit above bit 15 is set)' % (w.decode('latin-1'), r)
+            if bad:
+                break
+    except UndefinedBehaviour as ex:
+        bad = 'undefined behaviour: %s' % ex
+    except Unsupported as ex:
+        raise AnalysisBroken('C05.a: hex_to_u32_nocheck cannot be evaluated: %s' % ex)
+    rep.check(bad is None, 'E5.hex-value', f.qn, 'four hex digits -> their value; anything else -> a value above 0xFFFF (%d words evaluated)' % n, f.loc, bad or '', facts.config)
+    return bad is None
 
 
 def clause_b(facts, rep, table_ok):
